@@ -155,3 +155,71 @@ def call_passes_param(qualname, method, arg_index, param, min_calls=1):
             return rec
     rec["status"] = "proved"
     return rec
+
+
+def stage_guards(qualname, stages, success_prefix="True"):
+    """Abort-on-error obligation for a pipeline driver: in the top-level body of `qualname`, every statement that
+    calls one of the `stages` methods is followed — before the next stage call and before any `return True, ...` —
+    by `if <diag>.has_errors(): return False, ...`; so no success return is reachable with a recorded error."""
+    rec = {"name": f"{qualname.split('::')[-1]}: every stage ({', '.join(stages)}) is followed by an abort on recorded errors before any success return",
+           "status": "undecided", "backend": "ast-control-dependence", "ms": 0.0}
+    try:
+        fs = source.get_function(qualname)
+    except Exception as e:
+        rec["detail"] = f"contract drift: {e}"
+        return rec
+    body = fs.node.body
+
+    def stage_of(stmt):
+        for n in ast.walk(stmt):
+            if isinstance(n, ast.Call) and isinstance(n.func, ast.Attribute) and n.func.attr in stages:
+                return n.func.attr
+        return None
+
+    def is_abort(stmt):
+        if not isinstance(stmt, ast.If):
+            return False
+        t = stmt.test
+        if not (isinstance(t, ast.Call) and isinstance(t.func, ast.Attribute) and t.func.attr == "has_errors"):
+            return False
+        last = stmt.body[-1]
+        return (isinstance(last, ast.Return) and isinstance(last.value, ast.Tuple) and last.value.elts
+                and isinstance(last.value.elts[0], ast.Constant) and last.value.elts[0].value is False)
+
+    def is_success(stmt):
+        for n in ast.walk(stmt):
+            if isinstance(n, ast.Return) and isinstance(n.value, ast.Tuple) and n.value.elts and \
+                    isinstance(n.value.elts[0], ast.Constant) and n.value.elts[0].value is True:
+                return True
+        return False
+
+    seen = []
+    pending = None
+    for stmt in body:
+        if is_abort(stmt):
+            pending = None
+            continue
+        st = stage_of(stmt)
+        if st is not None:
+            if isinstance(stmt, (ast.If, ast.For, ast.While, ast.Try, ast.With)) and st not in ("optimize",):
+                pass  # a stage inside a compound statement still needs its abort after the statement
+            if pending is not None:
+                rec["status"] = "violated"
+                rec["detail"] = f"line {stmt.lineno}: stage .{st}() starts although .{pending}() was not followed by an abort on has_errors()"
+                return rec
+            pending = st
+            seen.append(st)
+        if is_success(stmt) and pending is not None:
+            rec["status"] = "violated"
+            rec["detail"] = f"line {stmt.lineno}: success return reachable after .{pending}() without an abort on has_errors()"
+            return rec
+    missing = [s for s in stages if s not in seen]
+    rec["vc"] = f"stages found in order: {seen}"
+    if missing:
+        rec["detail"] = f"stage call(s) {missing} not found at the top level of the function (contract drift)"
+        return rec
+    if not any(is_success(s) for s in body):
+        rec["detail"] = "no success return found (contract drift)"
+        return rec
+    rec["status"] = "proved"
+    return rec
